@@ -137,6 +137,59 @@ ZERO = {
 ZERO_REPEATS = {"quick": 12, "thorough": 150}
 
 
+# A play that is already fouled and is then asked to end with a signal: the
+# verdict has to survive the signal path of runConduct too.
+SIGNALLED_CFG = """role r
+  :hello echo hi
+end
+cast
+  a plays r
+end
+script
+  tempo 1s
+  scene h entails for a: hello
+  storyline h..................h
+end
+audience
+  bob expects always: t < 0
+end
+"""
+
+
+def signalled_play(binpath, signame):
+    import signal as _sig
+    tmp = tempfile.mkdtemp(prefix="shk-c03-sig-")
+    try:
+        with open(os.path.join(tmp, "play.cfg"), "w") as f:
+            f.write(SIGNALLED_CFG)
+        t0 = time.time()
+        p = subprocess.Popen([binpath, "-o", "out", "--disable-plots", "-q", "play.cfg"], cwd=tmp, stdout=subprocess.PIPE,
+                             stderr=subprocess.STDOUT, env=dict(os.environ, SHELL="/bin/bash"))
+        seen = False
+        while time.time() - t0 < 15 and p.poll() is None and not seen:
+            for root, _, files in os.walk(os.path.join(tmp, "out")):
+                if "audit-bob.csv" in files:
+                    try:
+                        seen = any(len(l.split()) > 1 and l.split()[1] == "2" for l in open(os.path.join(root, "audit-bob.csv")))
+                    except OSError:
+                        pass
+            time.sleep(0.1)
+        sent = False
+        if p.poll() is None and seen:
+            p.send_signal(getattr(_sig, signame))
+            sent = True
+        try:
+            out, _ = p.communicate(timeout=100)
+        except subprocess.TimeoutExpired:
+            p.kill()
+            out, _ = p.communicate()
+        return {"name": "fouled-then-" + signame, "early": False, "exit": p.returncode, "foul_seen_on_disk": seen, "signal_sent": sent,
+                "expected_nonzero": True, "foul_flag": None, "wall_s": round(time.time() - t0, 2),
+                "output_tail": out.decode("utf-8", "replace")[-1500:], "config": SIGNALLED_CFG}
+    finally:
+        shutil.rmtree(tmp, ignore_errors=True)
+
+
 def run_play(binpath, name, early, keepdir=None):
     if name in ZERO:
         return _run(binpath, name, early, ZERO[name][0], ZERO[name][1])
@@ -201,7 +254,9 @@ def run(tier, seed):
     jobs = [(n, e) for n in E2E for e in (False, True)]
     jobs += [(n, e) for n in ZERO for e in (False, True) for _ in range(ZERO_REPEATS[tier])]
     with concurrent.futures.ThreadPoolExecutor(max_workers=12) as ex:
+        sig_futures = [ex.submit(signalled_play, bins["shakespeare"], sn) for sn in ("SIGTERM", "SIGHUP", "SIGINT")]
         plays = list(ex.map(lambda a: run_play(bins["shakespeare"], a[0], a[1]), jobs))
+        sig_plays = [f.result() for f in sig_futures]
 
     # ---- in-process: interpretation / tallies / verdict / -S through the real audition + collector
     r = audcommon.run_harness(res, bins["c03"], tier, seed)
@@ -225,6 +280,12 @@ def run(tier, seed):
     if rc != 0 or any(v is None for v in vals.values()):
         res.violation(None, "correspondence cases did not evaluate", {"kind": "cases-eval", "output": cout[-6000:]}, no_input=True)
         return res.finish()
+    res.coverage["signalled_plays"] = [{k: p[k] for k in ("name", "exit", "foul_seen_on_disk", "signal_sent", "wall_s")} for p in sig_plays]
+    for p in sig_plays:
+        # exit status 1 = the error funnel; a play that could not be signalled in time proves nothing
+        if p["signal_sent"] and p["exit"] == 0:
+            res.violation("exit-status-" + p["name"], "a play that was already fouled (disappointed auditor, default interpretation) and was then told to end by %s exits 0" % p["name"].split("-")[-1],
+                          {"kind": "failing-input", "play": p, "replay": "shakespeare -o out --disable-plots -q play.cfg & wait for status 2 in out/*/csv/audit-bob.csv; kill -%s $!" % p["name"].split("-")[-1][3:]})
     reported = set()
     for p in plays:
         key = (p["name"], p["early"])
